@@ -1318,7 +1318,16 @@ def gen_scenario(g, kind=None):
     if g.random() < 0.25:  # second wrapper on an existing record
         i = g.randrange(n)
         wrappers.append({"h": "w2:M%d" % i, "cls": mcls, "rec": "M%d" % i})
-    return {"cutter": cutter, "refs": refs, "pool": pool, "wrappers": wrappers, "chain": ["w:M%d" % i for i in range(n)], "extras": extras, "n": n, "level2": level2, "twins": twins}
+    vec_twin = None
+    if not two_level and g.random() < 0.12:
+        # the vector plasmid, rotated by the caller with `>>`, handed in as a *module* of the same call (a
+        # two-site plasmid reads as a module the other way round): the vector and this module are distinct
+        # records that share their qualifier dictionaries, and nothing stops the call at map-building
+        src = next(r for r in pool if r["id"] == "V0")
+        pool.append({"id": "TV0", "role": "module", "derive": {"from": "V0", "op": "rshift", "k": g.randrange(1, len(src["seq"]))}})
+        wrappers.append({"h": "w:TV0", "cls": mcls, "rec": "TV0"})
+        vec_twin = "w:TV0"
+    return {"cutter": cutter, "refs": refs, "pool": pool, "wrappers": wrappers, "chain": ["w:M%d" % i for i in range(n)], "extras": extras, "n": n, "level2": level2, "twins": twins, "vec_twin": vec_twin}
 
 
 def _cidar_cls(stem):
@@ -1401,6 +1410,17 @@ def _gen_call(g, sc, i):
         vec = "w:V1"
     elif x < 0.60 and sc["extras"]:
         mods = g.sample(chain + sc["extras"], g.randint(1, len(chain)))
+    if sc.get("vec_twin") and vec == "w:V0" and g.random() < 0.5:
+        y = g.random()
+        base_ = list(sc["chain"])
+        if y < 0.3:
+            mods = [sc["vec_twin"]]
+        elif y < 0.55:
+            mods = base_ + [sc["vec_twin"]]
+        elif y < 0.8:
+            mods = base_[1:] + [sc["vec_twin"]]
+        else:
+            mods = base_[:-1] + [sc["vec_twin"]]
     g.shuffle(mods)
     call = {"op": "assemble", "vec": vec, "mods": mods, "out_id": "prod%d" % i, "out_name": "prod%d" % i}
     if g.random() < 0.12:
